@@ -71,4 +71,19 @@ def cancels1 (P : Prims) : Desc → St → List Nat
       | .undefSeq _ => []
 end
 
+mutual
+/-- no operator 235YYY anywhere in the template -/
+def noCancelD : Desc → Bool
+  | .op id => id / 1000 != 235
+  | .fixedRep _ ms => noCancelL ms
+  | .delayedRep _ _ ms => noCancelL ms
+  | .seq _ ms => noCancelL ms
+  | .elem _ => true
+  | .undefElem _ => true
+  | .undefSeq _ => true
+def noCancelL : List Desc → Bool
+  | [] => true
+  | d :: ds => noCancelD d && noCancelL ds
+end
+
 end Bufr.Spec
